@@ -651,7 +651,12 @@ class _LevelMap:
                     raise Unsupported(f"{fi.qualname}: `{short(n, 60)}` mutates the level map in an unmodelled way")
                 if kind is None:
                     continue
-                key = f"{fi.fq}|store into {self.attr}|{short(n, 90)}"
+                # keyed by the class that owns the map, not by the (helper / nested) function the store sits in
+                owner = fi
+                while owner.cls is None and owner.parent_func is not None:
+                    owner = owner.parent_func
+                where = owner.cls.fq if owner.cls is not None else fi.fq
+                key = f"{where}|store into {self.attr}|{short(n, 90)}"
                 site = fi.module.site(n)
                 try:
                     k, why = self.kind(val, fi, 0)
@@ -2555,6 +2560,8 @@ def _built_once_attached_in_loop(corpus: Corpus, rep: Report) -> None:
             rebinds = {cfg.stmt_of(b) for b, _, _ in allb}
             # only the bindings that can reach the attach site matter
             bs = [(b, val) for b, val, idx in allb if cfg.paths_avoiding(cfg.stmt_of(b), st, lambda x, me=cfg.stmt_of(b): x in rebinds and x is not me)]
+            # `x = None` is a placeholder ("not built yet"), not the node; it still counts as a rebinding below
+            bs = [(b, val) for b, val in bs if not (isinstance(val, ast.Constant) and val.value is None)]
             if not bs or any(idx is not None for b, _, idx in allb if any(b is b2 for b2, _ in bs)) or not all(_is_node_valued(corpus, fi, val) for _, val in bs):
                 continue
             again = any(cfg.paths_avoiding(s_, st, lambda x: x in rebinds) for s_ in cfg.succ.get(st, []) if s_ not in rebinds)
@@ -3675,6 +3682,15 @@ def _splice_many(src: str, edits: list[tuple[ast.AST, str]]) -> str:
     return src
 
 
+def _lazy_once_mutant(m, asg: ast.Assign, outer: ast.For, var: str) -> str:
+    """`x = build()` inside the loop becomes `if x is None: x = build()`, with `x = None` in front of the loop."""
+    ind_a, ind_o = _indent(m, asg), _indent(m, outer)
+    src = splice(m.src, asg, f"if {var} is None:\n{ind_a}    " + (ast.get_source_segment(m.src, asg) or ""))
+    start = sum(len(l.encode("utf8")) for l in src.splitlines(keepends=True)[: outer.lineno - 1]) + outer.col_offset
+    b = src.encode("utf8")
+    return (b[:start] + f"{var} = None\n{ind_o}".encode("utf8") + b[start:]).decode("utf8")
+
+
 def _closure_mutant(m, lp: ast.For, iff: ast.If, helper_def: str) -> str:
     """The loop's close-the-segment block becomes a call of a nested helper defined before the loop."""
     src = splice(m.src, iff, "_close_segment()")  # iff lies inside lp: do it first (later offsets only)
@@ -3800,6 +3816,20 @@ def mutants(corpus: Corpus):
             ind = _indent(pm, lp)
             rest = "".join("\n" + ind + "    " + _stmt_text(pm, x) for x in lp.body if x is not asg)
             add(mid, "C03.R5", pm, lp, _stmt_text(pm, asg) + "\n" + ind + f"for {unparse(lp.target)} in {unparse(lp.iter)}:" + rest, "node built once")
+        else:
+            out.append((mid, "raw-replacement loop not found"))
+    for modname, q, mid in (("parsers.docutils_", "Parser.parse", "c03-raw-warning-built-lazily-once-docutils"), ("parsers.sphinx_", "MystParser.parse", "c03-raw-warning-built-lazily-once-sphinx")):
+        pm = corpus.mod(modname)
+        f = pm.func(q)
+        asg = find_node(f, lambda n: isinstance(n, ast.Assign) and "reporter.warning" in unparse(n.value) and any(isinstance(a, ast.For) for a in _ancestors(n)))
+        outer = None
+        if asg is not None:
+            loops_ = [a for a in _ancestors(asg) if isinstance(a, ast.For)]
+            outer = loops_[-1] if loops_ else None
+        if asg is not None and outer is not None and isinstance(asg.targets[0], ast.Name):
+            v_ = asg.targets[0].id
+            ind_a, ind_o = _indent(pm, asg), _indent(pm, outer)
+            out.append(Mutant(mid, "C03.R5", pm.rel, _lazy_once_mutant(pm, asg, outer, v_), expect="node built once"))
         else:
             out.append((mid, "raw-replacement loop not found"))
     f = base.func("DocutilsRenderer.render_table")
